@@ -2,13 +2,16 @@
 //! and the hardware's `f32` arithmetic against the Lean model, plus the implementation oracle that
 //! states the property itself in exact integer arithmetic (an accepted rate is the nearest integer
 //! division; the nearest variants are in range, nearest and monotone; the three views agree; the
-//! emulator runs at the division the configuration names).
+//! emulator runs at the division the configuration names — `E` lines: FociSTM / GainSTM built with the
+//! typed constructors and `into_nearest()` as well as with the `STMConfig` enum, 1/2/8 foci per pattern,
+//! both segments, and a `Custom` modulation for a rate given directly; the oracle applies the property to
+//! the division register read back from the device).
 use crate::common::*;
 use crate::dev::*;
 use autd3::prelude::*;
 use autd3_core::sampling_config::{Nearest, SamplingConfigError};
 use autd3_core::utils::float::is_integer;
-use autd3_driver::datagram::{GainSTMOption, STMConfig};
+use autd3_driver::datagram::{ControlPoint, ControlPoints, GainSTMOption, STMConfig, WithSegment};
 use autd3_firmware_emulator::CPUEmulator;
 use std::time::Duration;
 
@@ -117,6 +120,32 @@ fn arg_str(kind: Kind, x: u128) -> String {
     match kind {
         Kind::F | Kind::N => hx(x as u32),
         _ => x.to_string(),
+    }
+}
+
+/// what an `E` line does not name (invisible to the model): see `Ctx::e2e`
+#[derive(Clone, Copy)]
+struct Vary {
+    /// the typed constructor (`f32*Hz`, `Duration`, `SamplingConfig`, `.into_nearest()`) instead of the `STMConfig` enum
+    typed: bool,
+    /// foci per pattern of a FociSTM (1, 2 or 8)
+    nfoci: usize,
+    seg: Segment,
+    /// another STM (division 12345) was written to the target segment before
+    used: bool,
+    ndev: usize,
+}
+impl Vary {
+    const PLAIN: Vary = Vary { typed: false, nfoci: 1, seg: Segment::S0, used: false, ndev: 1 };
+    fn describe(&self, gain: bool) -> String {
+        format!(
+            "{}{}, segment {:?}{}{}",
+            if self.typed { "typed constructor" } else { "STMConfig enum" },
+            if gain { String::new() } else { format!(", {} foci per pattern", self.nfoci) },
+            self.seg,
+            if self.used { ", used segment" } else { "" },
+            if self.ndev > 1 { ", 2 devices" } else { "" }
+        )
     }
 }
 
@@ -357,37 +386,206 @@ impl Ctx {
         self.out.line(&op, &toks.join(" "));
     }
 
-    /// the same through the datagram, the operation and the firmware emulator
-    fn e2e(&mut self, gain: bool, kind: Kind, x: u128, n: usize) {
+    /// the division the device must run at is checked against the property itself (not only against what
+    /// `sampling_config()` says): exact kinds name exactly that rate, nearest kinds never fail and are nearest
+    fn oracle_e2e(&mut self, what: &str, kind: Kind, x: u128, n: usize, tok: &str, line: &str, vary: &str) {
+        let letter = kind.letter();
+        let a = arg_str(kind, x);
+        let replay = vec![line.to_string(), format!("variation: {vary}")];
+        match tok.parse::<u16>() {
+            Ok(d) => {
+                let key = format!("e2e-{what}-{}:{a}x{n}", letter.to_lowercase());
+                match kind {
+                    Kind::F => self.oracle_freq(x as u32, n as u128, d, key, replay),
+                    Kind::P => self.oracle_period(x, n as u128, d, key, replay),
+                    Kind::N => {
+                        let prod = if n == 1 { x as u32 } else { (f32::from_bits(x as u32) * n as f32).to_bits() };
+                        self.oracle_freq_nearest(prod, d, key, replay)
+                    }
+                    Kind::Q => self.oracle_period_nearest(x, n as u128, d, key, replay),
+                    Kind::D => {
+                        if d as u128 != x {
+                            self.out.violation(key, format!("{what} with SamplingConfig::Division({x}): the device runs at division {d}"), replay)
+                        }
+                    }
+                }
+            }
+            Err(_) => {
+                if matches!(kind, Kind::N | Kind::Q | Kind::D) {
+                    self.out.violation(
+                        format!("e2e-nearest-error:{what}:{letter}:{a}x{n}"),
+                        format!("{what} {letter} {a} with {n} point(s): a nearest/division configuration was refused with `{tok}`"),
+                        replay,
+                    );
+                }
+            }
+        }
+    }
+
+    /// the same through the datagram, the operation and the firmware emulator.
+    ///
+    /// The op line names (kind, argument, number of patterns) only; everything in `Vary` is an *invisible*
+    /// variation (the model answers from the pattern count alone): how the configuration reaches the STM (the
+    /// `STMConfig` enum, or the typed constructor `FociSTM::new(.., f32*Hz | Duration | SamplingConfig)` with
+    /// `.into_nearest()` for N/Q, through the `From` impls), foci per pattern (1, 2 or 8), the target segment, a
+    /// device whose target segment ran another STM before, and a second device.
+    fn e2e(&mut self, gain: bool, kind: Kind, x: u128, n: usize, v: Vary) {
+        let letter = kind.letter();
+        let a = arg_str(kind, x);
+        let g = create_geometry(v.ndev);
+        let mut cpus: Vec<CPUEmulator> = (0..v.ndev).map(|i| CPUEmulator::new(i, g[i].num_transducers())).collect();
+        let mut tx = new_tx(v.ndev);
+        send_with(&mut cpus, Silencer::disable(), &g, &mut tx, |_, _| {}).unwrap();
+        if v.used {
+            // another STM ran on the target segment before: its division register must be overwritten
+            let old = FociSTM::new(vec![Point3::origin(); 3], config(Kind::D, 12345));
+            send_with(&mut cpus, WithSegment { inner: old, segment: v.seg, transition_mode: None }, &g, &mut tx, |_, _| {}).unwrap();
+        }
+        macro_rules! go {
+            ($stm:expr) => {{
+                let stm = $stm;
+                let expect = stm.sampling_config().and_then(|c| Ok(c.division()?));
+                let sent = guarded(|| {
+                    if v.seg == Segment::S1 {
+                        send_with(&mut cpus, WithSegment { inner: stm, segment: Segment::S1, transition_mode: None }, &g, &mut tx, |_, _| {})
+                    } else {
+                        send_with(&mut cpus, stm, &g, &mut tx, |_, _| {})
+                    }
+                });
+                (expect, sent)
+            }};
+        }
+        // `$build` is the STM constructor applied to a configuration `$cfg` of the type the variation chooses
+        macro_rules! with_cfg {
+            ($cfg:ident => $build:expr) => {
+                match (v.typed, kind) {
+                    (false, _) => {
+                        let $cfg = stm_config(kind, x);
+                        go!($build)
+                    }
+                    (true, Kind::F) => {
+                        let $cfg = f32::from_bits(x as u32) * Hz;
+                        go!($build)
+                    }
+                    (true, Kind::N) => {
+                        let $cfg = f32::from_bits(x as u32) * Hz;
+                        go!(($build).into_nearest())
+                    }
+                    (true, Kind::P) => {
+                        let $cfg = dur(x);
+                        go!($build)
+                    }
+                    (true, Kind::Q) => {
+                        let $cfg = dur(x);
+                        go!(($build).into_nearest())
+                    }
+                    (true, Kind::D) => {
+                        let $cfg = config(Kind::D, x);
+                        go!($build)
+                    }
+                }
+            };
+        }
+        fn pts<const N: usize>(n: usize) -> Vec<ControlPoints<N>> {
+            (0..n).map(|k| ControlPoints::new([ControlPoint::default(); N], EmitIntensity(k as u8))).collect()
+        }
+        let (expect, sent) = if gain {
+            with_cfg!(cfg => GainSTM::new((0..n).map(|_| Null {}).collect::<Vec<_>>(), cfg, GainSTMOption::default()))
+        } else {
+            match v.nfoci {
+                1 => with_cfg!(cfg => FociSTM::new((0..n).map(|_| Point3::origin()).collect::<Vec<_>>(), cfg)),
+                2 => with_cfg!(cfg => FociSTM::new(pts::<2>(n), cfg)),
+                _ => with_cfg!(cfg => FociSTM::new(pts::<8>(n), cfg)),
+            }
+        };
+        let name = if gain { "gain" } else { "foci" };
+        let line = format!("E {name} {letter} {a} {n}");
+        let vary = v.describe(gain);
+        let tok = match sent {
+            Err(m) => format!("panic:{}", panic_key(&m)),
+            Ok(Err(e)) => drv_tok(&Err(e)),
+            Ok(Ok(())) => {
+                let ds: Vec<u16> = cpus.iter().map(|c| c.fpga().stm_freq_division(v.seg)).collect();
+                if ds.iter().any(|&d| d != ds[v.ndev - 1]) {
+                    self.out.violation(
+                        format!("e2e-devices-differ:{name}:{letter}:{a}x{n}"),
+                        format!("{name} STM {letter} {a} with {n} patterns: the devices run at different divisions {ds:?}"),
+                        vec![line.clone(), format!("variation: {vary}")],
+                    );
+                }
+                ds[v.ndev - 1].to_string()
+            }
+        };
+        if tok != drv_tok(&expect) {
+            self.out.violation(
+                format!("e2e:{name}:{letter}:{a}x{n}"),
+                format!("{name} STM {letter} {a} with {n} patterns ({vary}): sampling_config() says {}, the device runs at {tok}", drv_tok(&expect)),
+                vec![line.clone(), format!("variation: {vary}")],
+            );
+        }
+        self.oracle_e2e(&format!("{name}-stm"), kind, x, n, &tok, &line, &vary);
+        self.out.count(&format!("e2e-{name}"));
+        self.out.count(&format!("e2e-config-form(invisible):{}", if v.typed { format!("typed-{letter}") } else { "STMConfig-enum".to_string() }));
+        if !gain {
+            self.out.count(&format!("e2e-foci-per-pattern(invisible):{}", v.nfoci));
+        }
+        self.out.count(&format!("e2e-target(invisible):{:?}{}{}", v.seg, if v.used { "-used" } else { "-fresh" }, if v.ndev > 1 { "-2dev" } else { "" }));
+        self.out.case(Some(fnv64(format!("E{name}{letter}{a}x{n}:{vary}").as_bytes())));
+        self.out.line(&line, &tok);
+    }
+
+    /// a rate given directly, followed to the device: `Custom` modulation of two samples with the configuration
+    /// `kind x`; the answer is the modulation division register. `typed`: the configuration reaches `Custom`
+    /// as `f32*Hz` / `Duration` / `NonZeroU16` (through `Into<SamplingConfig>`) or, for the nearest kinds, via
+    /// `SamplingConfig::new(..).into_nearest()`; otherwise as the enum value. Invisible to the model.
+    fn e2e_mod(&mut self, kind: Kind, x: u128, typed: bool, seg: Segment) {
         let letter = kind.letter();
         let a = arg_str(kind, x);
         let g = create_geometry(1);
         let mut cpu = CPUEmulator::new(0, g[0].num_transducers());
         let mut tx = new_tx(1);
         send(&mut cpu, Silencer::disable(), &g, &mut tx).unwrap();
-        let cfg = stm_config(kind, x);
-        let (expect, sent) = if gain {
-            let stm = GainSTM::new((0..n).map(|_| Null {}).collect::<Vec<_>>(), cfg, GainSTMOption::default());
-            (stm.sampling_config().and_then(|c| Ok(c.division()?)), send(&mut cpu, stm, &g, &mut tx))
-        } else {
-            let stm = FociSTM::new((0..n).map(|_| Point3::origin()).collect::<Vec<_>>(), cfg);
-            (stm.sampling_config().and_then(|c| Ok(c.division()?)), send(&mut cpu, stm, &g, &mut tx))
+        let expect: Result<u16, AUTDDriverError> = config(kind, x).division().map_err(Into::into);
+        macro_rules! go {
+            ($cfg:expr) => {{
+                let m = autd3::modulation::Custom::new(vec![0xFFu8; 2], $cfg);
+                guarded(|| {
+                    if seg == Segment::S1 {
+                        send(&mut cpu, WithSegment { inner: m, segment: Segment::S1, transition_mode: None }, &g, &mut tx)
+                    } else {
+                        send(&mut cpu, m, &g, &mut tx)
+                    }
+                })
+            }};
+        }
+        let sent = match (typed, kind) {
+            (false, _) => go!(config(kind, x)),
+            (true, Kind::F) => go!(f32::from_bits(x as u32) * Hz),
+            (true, Kind::N) => go!(SamplingConfig::new(f32::from_bits(x as u32) * Hz).into_nearest()),
+            (true, Kind::P) => go!(dur(x)),
+            (true, Kind::Q) => go!(SamplingConfig::new(dur(x)).into_nearest()),
+            (true, Kind::D) => go!(std::num::NonZeroU16::new(x as u16).unwrap()),
         };
+        let line = format!("E mod {letter} {a}");
+        let vary = format!("{} config, segment {seg:?}", if typed { "typed" } else { "SamplingConfig-enum" });
         let tok = match sent {
-            Ok(()) => cpu.fpga().stm_freq_division(Segment::S0).to_string(),
-            Err(e) => drv_tok(&Err(e)),
+            Err(m) => format!("panic:{}", panic_key(&m)),
+            Ok(Err(e)) => drv_tok(&Err(e)),
+            Ok(Ok(())) => cpu.fpga().modulation_freq_division(seg).to_string(),
         };
-        let name = if gain { "gain" } else { "foci" };
         if tok != drv_tok(&expect) {
             self.out.violation(
-                format!("e2e:{name}:{letter}:{a}x{n}"),
-                format!("{name} STM {letter} {a} with {n} points: sampling_config() says {}, the device runs at {tok}", drv_tok(&expect)),
-                vec![format!("E {name} {letter} {a} {n}")],
+                format!("e2e:mod:{letter}:{a}"),
+                format!("modulation {letter} {a} ({vary}): SamplingConfig::division() says {}, the device runs at {tok}", drv_tok(&expect)),
+                vec![line.clone(), format!("variation: {vary}")],
             );
         }
-        self.out.count(&format!("e2e-{name}"));
-        self.out.case(Some(fnv64(format!("E{name}{letter}{a}x{n}").as_bytes())));
-        self.out.line(&format!("E {name} {letter} {a} {n}"), &tok);
+        self.oracle_e2e("modulation", kind, x, 1, &tok, &line, &vary);
+        self.out.count("e2e-mod");
+        self.out.count(&format!("e2e-mod-config-form(invisible):{}", if typed { format!("typed-{letter}") } else { "SamplingConfig-enum".to_string() }));
+        self.out.count(&format!("e2e-mod:{}", if tok.chars().all(|c| c.is_ascii_digit()) { "accepted" } else { &tok }));
+        self.out.case(Some(fnv64(format!("Emod{letter}{a}:{vary}").as_bytes())));
+        self.out.line(&line, &tok);
     }
 
     /// lower request never yields a higher device rate
@@ -577,10 +775,19 @@ fn run_sampling(args: &Args) {
         ctx.out.count("stm-degenerate-sizes");
     }
 
-    // ---- through the driver and the firmware emulator
-    let ne2e = if thorough { 1500 } else { 250 };
+    // ---- through the driver and the firmware emulator. The op line carries (kind, argument, patterns); the rest is
+    // cycled so that every (stm, kind, config form, foci per pattern, segment) combination occurs in the quick tier
+    let ne2e = if thorough { 2400 } else { 360 };
     for i in 0..ne2e {
         let gain = i % 2 == 1;
+        let kind = [Kind::D, Kind::F, Kind::N, Kind::P, Kind::Q][(i / 2) % 5];
+        let v = Vary {
+            typed: (i / 10) % 2 == 1,
+            nfoci: [1, 2, 8][(i / 20) % 3],
+            seg: if (i / 60) % 2 == 1 { Segment::S1 } else { Segment::S0 },
+            used: rng.chance(1, 3),
+            ndev: if rng.chance(1, 4) { 2 } else { 1 },
+        };
         let n = *rng.pick(&[2usize, 2, 3, 4, 5, 7, 10, 16]);
         let d = match rng.below(4) {
             0 => rng.range(1, 40),
@@ -588,32 +795,89 @@ fn run_sampling(args: &Args) {
             2 => *rng.pick(&[1u64, 2, 3, 65534, 65535]),
             _ => rng.range(1, 4096),
         } as u128;
-        match rng.below(5) {
-            0 => ctx.e2e(gain, Kind::D, d, n),
-            1 => {
+        match kind {
+            Kind::D => ctx.e2e(gain, Kind::D, d, n, v),
+            Kind::F => {
                 let c = ((40000.0f64 / (d as f64 * n as f64)) as f32).to_bits();
-                ctx.e2e(gain, Kind::F, (c as i64 + rng.range(0, 2) as i64 - 1) as u128, n)
+                ctx.e2e(gain, Kind::F, (c as i64 + rng.range(0, 2) as i64 - 1) as u128, n, v)
             }
-            2 => {
+            Kind::N => {
                 let c = ((40000.0f64 / (d as f64 * n as f64)) as f32).to_bits();
-                ctx.e2e(gain, Kind::N, (c as i64 + rng.range(0, 400) as i64 - 200) as u128, n)
+                ctx.e2e(gain, Kind::N, (c as i64 + rng.range(0, 400) as i64 - 200) as u128, n, v)
             }
-            3 => ctx.e2e(gain, Kind::P, d * PERIOD_NS * n as u128 + if rng.chance(1, 6) { 1 } else { 0 }, n),
-            _ => ctx.e2e(gain, Kind::Q, d * PERIOD_NS * n as u128 + rng.below(30_000) as u128, n),
+            Kind::P => ctx.e2e(gain, Kind::P, d * PERIOD_NS * n as u128 + if rng.chance(1, 6) { 1 } else { 0 }, n, v),
+            Kind::Q => ctx.e2e(gain, Kind::Q, d * PERIOD_NS * n as u128 + rng.below(30_000) as u128, n, v),
         }
     }
-    // the witnesses end to end
-    ctx.e2e(false, Kind::F, 1333.3334f32.to_bits() as u128, 10);
-    ctx.e2e(true, Kind::N, 13500f32.to_bits() as u128, 2);
+    // the witnesses end to end, in every form
+    for typed in [false, true] {
+        for nfoci in [1, 2, 8] {
+            let v = Vary { typed, nfoci, ..Vary::PLAIN };
+            ctx.e2e(false, Kind::F, 1333.3334f32.to_bits() as u128, 10, v);
+            ctx.e2e(true, Kind::N, 13500f32.to_bits() as u128, 2, v);
+            // a period that is not a multiple of the pattern count / of 25 us: exact refuses, nearest rounds
+            ctx.e2e(false, Kind::P, 250_001, 2, v);
+            ctx.e2e(false, Kind::Q, 250_001, 2, v);
+            ctx.e2e(true, Kind::P, 262_500, 2, v);
+            ctx.e2e(true, Kind::Q, 262_500, 2, Vary { seg: Segment::S1, ..v });
+        }
+    }
+
+    // ---- a rate given directly, followed to the device: Custom modulation (corpus: F6/F7 witnesses first)
+    let mut k = 0usize;
+    let next_form = |k: &mut usize| {
+        *k += 1;
+        (*k % 2 == 0, if (*k / 2) % 2 == 1 { Segment::S1 } else { Segment::S0 })
+    };
+    for f in [13333.334f32, 20000.002, 13333.333, 40000.0, 40000.004, 0.61036086, 0.6103609, 0.0, f32::NAN] {
+        for _ in 0..2 {
+            let (typed, seg) = next_form(&mut k);
+            ctx.e2e_mod(Kind::F, f.to_bits() as u128, typed, seg);
+        }
+    }
+    for f in [f32::NAN, 27000.0, -1.0, f32::NEG_INFINITY, -0.0, f32::INFINITY, 13500.0, 0.3, 1e9] {
+        for _ in 0..2 {
+            let (typed, seg) = next_form(&mut k);
+            ctx.e2e_mod(Kind::N, f.to_bits() as u128, typed, seg);
+        }
+    }
+    for p in [0u128, 24_999, 25_000, 25_001, 37_500, 65535 * PERIOD_NS, 65535 * PERIOD_NS + 12_500, 65536 * PERIOD_NS, u64::MAX as u128] {
+        for kind in [Kind::P, Kind::Q] {
+            let (typed, seg) = next_form(&mut k);
+            ctx.e2e_mod(kind, p, typed, seg);
+        }
+    }
+    ctx.out.count_n("corpus", 3);
+    let nmod = if thorough { 2000 } else { 300 };
+    for i in 0..nmod {
+        let kind = [Kind::D, Kind::F, Kind::N, Kind::P, Kind::Q][i % 5];
+        let typed = (i / 5) % 2 == 1;
+        let seg = if (i / 10) % 2 == 1 { Segment::S1 } else { Segment::S0 };
+        let d = match rng.below(4) {
+            0 => rng.range(1, 40),
+            1 => rng.range(1, 65535),
+            2 => *rng.pick(&[1u64, 2, 3, 65534, 65535]),
+            _ => rng.range(1, 4096),
+        } as u128;
+        let c = (40000.0f32 / d as f32).to_bits();
+        let x = match kind {
+            Kind::D => d,
+            Kind::F => (c as i64 + rng.range(0, 2) as i64 - 1) as u128,
+            Kind::N => (c as i64 + rng.range(0, 400) as i64 - 200) as u128,
+            Kind::P => d * PERIOD_NS + if rng.chance(1, 6) { 1 } else { 0 },
+            Kind::Q => d * PERIOD_NS + rng.below(30_000) as u128,
+        };
+        ctx.e2e_mod(kind, x, typed, seg);
+    }
 
     ctx.oracle_monotone();
     ctx.out.sample("F 46505556  (SamplingConfig::Freq(13333.334 Hz).division())".into());
     ctx.out.sample("N 7fc00000 46d2f000 bf800000 ff800000 80000000  (FreqNearest of NaN, 27000, -1, -inf, -0)".into());
     ctx.out.sample("SF 10 44a6aaab  (STMConfig::Freq(1333.3334 Hz).into_sampling_config(10)?.division())".into());
-    ctx.out.sample("V D 65535 / Q 37499 37500 37501 / E foci Q 1250123 5".into());
+    ctx.out.sample("V D 65535 / Q 37499 37500 37501 / E foci Q 1250123 5 / E mod F 46505556".into());
     ctx.out.finish(
         "sampling",
-        "a case is one configuration evaluated (one bit pattern / duration / (config, size) pair); all are non-trivial; distinct by (kind, argument, size)",
+        "a case is one configuration evaluated (one bit pattern / duration / (config, size) pair); all are non-trivial; distinct by (kind, argument, size) and, for E lines, by the variation the op line does not name (counters marked `(invisible)`: typed constructor vs enum, foci per pattern, segment, used segment, second device — the model answers from (kind, argument, patterns) alone)",
     );
 }
 
